@@ -723,7 +723,25 @@ func c09Preproc(c *Ctx) {
 		}
 		c.Check(rule, fmt.Sprintf("%s|decode#%d|error-stored", fnName(fn), i), ok, d.Pos(), "a line the codec rejects stops the preprocessor with that error")
 	}
-	if len(decodes) < 2 {
+	// one DecodeLn per kind, or one shared by both kinds: decided by the facts under which a decode runs — a decode
+	// that runs only for one of the two prefixes (its block knows "rtype == X" for a single X) does not cover the other
+	kindsCovered := 0
+	for _, d := range decodes {
+		eq := 0
+		for _, f := range factsAt(d.Block()) {
+			if b, isB := f.V.(*ssa.BinOp); isB && ((b.Op == token.EQL && f.Truth) || (b.Op == token.NEQ && !f.Truth)) {
+				if call := isCallToFunc(b.X, "", "decodeRtype"); call != nil || isCallToFunc(b.Y, "", "decodeRtype") != nil {
+					eq++
+				}
+			}
+		}
+		if eq > 0 {
+			kindsCovered++
+		} else {
+			kindsCovered += 2 // not tied to one prefix: shared by the kinds that reach it
+		}
+	}
+	if kindsCovered < 2 {
 		c.Check(rule, fnName(fn)+"|decodes-subnet-and-soa-lines", false, fn.Pos(), fmt.Sprintf("%d DecodeLn calls: '%%' lines must be accounted in the accumulator and SOA lines normalised", len(decodes)))
 	}
 	// what is emitted
